@@ -1,13 +1,17 @@
-(* The binary64 arithmetic of Servo.write() / write_us(), as CPython executes it:
+(* The binary64 arithmetic of Servo.write() / write_us(), as CPython executes it (after the repair of
+   F-C19-servo-bound-ulp: the interpolated value is clamped to the configured bounds):
 
-       _angle_to_pulse(a) = min_pulse + ((a - min_angle) / (max_angle - min_angle)) * (max_pulse - min_pulse)
-       _pulse_to_angle(p) = min_angle + ((p - min_pulse) / (max_pulse - min_pulse)) * (max_angle - min_angle)
+       _angle_to_pulse(a): pulse = min_pulse + ((a - min_angle) / (max_angle - min_angle)) * (max_pulse - min_pulse)
+                           return min(max(pulse, min_pulse), max_pulse)
+       _pulse_to_angle(p): angle = min_angle + ((p - min_pulse) / (max_pulse - min_pulse)) * (max_angle - min_angle)
+                           return min(max(angle, min_angle), max_angle)
 
    five operations each, every one rounded to the nearest binary64 number ([fl] = fl53 of Host/LCDFloat.v,
-   unbounded exponent: IEEE-754 binary64 wherever no overflow / subnormal occurs).  At the top of the range the
-   ratio is exactly 1 and the result is fl (min + fl (max - min)), which is NOT max for unlucky bounds: the
-   pulse (angle) then exceeds its configured bound by an ulp (Proofs/ServoFloatP.v, finding
-   F-C19-servo-bound-ulp).  [top_ok lo hi] is the executable guard "fl (lo + fl (hi - lo)) <= hi" (Python: lo + (hi - lo) <= hi).
+   unbounded exponent: IEEE-754 binary64 wherever no overflow / subnormal occurs), then the clamp (exact).
+   At the top of the range the ratio is exactly 1 and the raw value [lin_fl] is fl (min + fl (max - min)), which is
+   NOT max for unlucky bounds: the raw pulse (angle) exceeds the bound by an ulp - the clamp is what keeps the
+   stored value within the bounds (Proofs/ServoFloatP.v).  [top_ok lo hi] says "fl (lo + fl (hi - lo)) <= hi"
+   (the old guard of the finding: where it holds the clamp never bites).
    [sstep_fl] is [sstep] of Host/Servo.v with the two maps computed this way.  Definitions only. *)
 From Coq Require Import ZArith QArith List Bool.
 From RV Require Import Base.Wire Base.NumM Host.Servo.
@@ -21,8 +25,15 @@ Definition fl (q : Q) : Q := LCDFloat.fl53 (Qred q).
 Definition lin_fl (lo_in hi_in lo_out hi_out x : Q) : Q :=
   fl (lo_out + fl (fl (fl (x - lo_in) / fl (hi_in - lo_in)) * fl (hi_out - lo_out))).
 
-Definition a2p_fl (s : servo) (a : Q) : Q := Qred (lin_fl (min_a s) (max_a s) (min_p s) (max_p s) a).
-Definition p2a_fl (s : servo) (p : Q) : Q := Qred (lin_fl (min_p s) (max_p s) (min_a s) (max_a s) p).
+(* min(max(v, lo), hi) *)
+Definition lin_clamped_fl (lo_in hi_in lo_out hi_out x : Q) : Q :=
+  qclamp lo_out hi_out (lin_fl lo_in hi_in lo_out hi_out x).
+
+Definition a2p_fl (s : servo) (a : Q) : Q := Qred (lin_clamped_fl (min_a s) (max_a s) (min_p s) (max_p s) a).
+Definition p2a_fl (s : servo) (p : Q) : Q := Qred (lin_clamped_fl (min_p s) (max_p s) (min_a s) (max_a s) p).
+(* the raw (unclamped) interpolation: what the class stored before the repair *)
+Definition a2p_raw_fl (s : servo) (a : Q) : Q := Qred (lin_fl (min_a s) (max_a s) (min_p s) (max_p s) a).
+Definition p2a_raw_fl (s : servo) (p : Q) : Q := Qred (lin_fl (min_p s) (max_p s) (min_a s) (max_a s) p).
 
 Definition top_exact (lo hi : Q) : bool := Qeq_bool (fl (lo + fl (hi - lo))) hi.
 (* the form the bound theorem needs: the image of the top of the range is not above the bound.  [fl (fl x)]
